@@ -255,22 +255,95 @@ pub fn judge(sc: &SchedScenario, mut x: Execution, want: &[&str]) -> SchedOutcom
                         if let crate::simio::Kind::Zero { len } = &r.kind {
                             let is_data_punch = *len == (1usize << cb);
                             let c0 = r.off >> cb;
-                            is_data_punch && c0 == cl && (sc.setup.iter().chain(sc.tasks.iter().flatten()).any(|o| matches!(o, Op::Discard { .. })))
+                            // issued by a task that only discards (the zeroing of a freshly allocated data cluster looks the same)
+                            let by_discarder = r.id >= x.log_start && sc.tasks.get(r.task).map_or(false, |t| !t.is_empty() && t.iter().all(|o| matches!(o, Op::Discard { .. })));
+                            is_data_punch && c0 == cl && by_discarder
                         } else {
                             false
                         }
                     })
                 });
-                let class = if by_discard && (c == "under" || c == "double_ref") {
-                    format!("crash:cluster-freed-by-discard-not-yet-flushed:{}:concurrent", c)
-                } else {
-                    format!("crash:{}:concurrent:{}", c, sig)
-                };
+                let _ = by_discard;
+                let class = format!("crash:{}:concurrent:{}", c, sig);
                 out.push(viol(sc, &x, "C04", class, format!("a crash during the concurrent phase can leave an unsafe image: {}", d)));
             }
         }
         let _ = images;
         CRASH_IMAGES.fetch_add(images, std::sync::atomic::Ordering::Relaxed);
+    }
+
+    // ---- C05 (concurrent): what task 0's sync made durable survives every later crash ----
+    if has("C05") {
+        if let Some(rec) = x.records.iter().find(|r| r.task == 0 && matches!(r.op, Op::Sync) && r.res.ok) {
+            let _ = rec;
+            let s = x.world.sim.borrow();
+            // the fsync_range request that ended the sync
+            let f = s.reqs[x.log_start..].iter().filter(|r| r.task == 0 && r.kind == crate::simio::Kind::Sync && r.complete_seq.is_some()).map(|r| r.id).max();
+            if let Some(f) = f {
+                let fdone = s.reqs[f].complete_seq.unwrap();
+                let rd0 = &x.world.rd;
+                let cs = rd0.cs as u64;
+                // synced blocks: non-zero after the set-up and not targeted by any concurrent operation
+                let targeted = |goff: u64| {
+                    x.records.iter().any(|r| match &r.op {
+                        Op::Write { off, len, .. } => goff >= *off && goff < *off + *len as u64,
+                        Op::Discard { off, len } => {
+                            let end = off.saturating_add(*len).min(rd0.vsize);
+                            goff >= (*off + cs - 1) / cs * cs && goff < end / cs * cs
+                        }
+                        _ => false,
+                    })
+                };
+                let synced: Vec<usize> = (0..rd0.blocks.len()).filter(|b| rd0.blocks[*b] != 0 && !targeted((*b * BLK) as u64)).collect();
+                let wins = crate::crash::windows(&s, 0);
+                let mut bad: Option<(String, String)> = None;
+                for win in wins.iter() {
+                    let after = match win.closed_by {
+                        Some(g) => s.reqs[g].complete_seq.unwrap() > fdone,
+                        None => true,
+                    };
+                    if !after || bad.is_some() {
+                        continue;
+                    }
+                    win.enumerate(1 << 10, 2, |img, _| {
+                        use std::hash::{Hash, Hasher};
+                        let mut hh = std::collections::hash_map::DefaultHasher::new();
+                        img.hash(&mut hh);
+                        synced.hash(&mut hh);
+                        0xC05u16.hash(&mut hh);
+                        if !CRASH_SEEN.lock().unwrap().insert(hh.finish()) {
+                            return true;
+                        }
+                        CRASH_IMAGES.fetch_add(1, std::sync::atomic::Ordering::Relaxed);
+                        let mut files = s.files.clone();
+                        files[0] = img.to_vec();
+                        let sim2 = Sim::new(files);
+                        match open_chain(&sim2, 0, &sc.cfg, false) {
+                            Ok(d2) => {
+                                let got = read_all(&d2, rd0.vsize as usize, 1usize << sc.cfg.bs_bits);
+                                for b in synced.iter() {
+                                    if got[*b] != Some(rd0.blocks[*b]) {
+                                        bad = Some((
+                                            format!("synced-block-lost:got-{}", classify_word(got[*b])),
+                                            format!("guest block {:#x} held {} when sync returned Ok but reads {} in a crash state after it", b * BLK, describe_word(Some(rd0.blocks[*b])), describe_word(got[*b])),
+                                        ));
+                                        return false;
+                                    }
+                                }
+                            }
+                            Err(e) => {
+                                bad = Some((format!("open-failed:{}", err_category(&e)), e));
+                                return false;
+                            }
+                        }
+                        true
+                    });
+                }
+                if let Some((c, d)) = bad {
+                    out.push(viol(sc, &x, "C05", format!("crash:concurrent:{}:{}", c, sig), d));
+                }
+            }
+        }
     }
 
     // ---- final observations ----
